@@ -30,8 +30,13 @@ Fixpoint lookup (e : env) (n : str) : option schema :=
   | (k, s) :: e => if bytes_eqb k n then Some s else lookup e n
   end.
 
-Definition nthZ {A} (l : list A) (i : Z) : option A :=
-  if i <? 0 then None else nth_error l (Z.to_nat i).
+(* l[i] for a Python-style non-negative index given as Z; structural on the list so that a
+   huge index costs nothing *)
+Fixpoint nthZ {A} (l : list A) (i : Z) : option A :=
+  match l with
+  | [] => None
+  | x :: l => if i =? 0 then Some x else if i <? 0 then None else nthZ l (i - 1)
+  end.
 
 Fixpoint index_of (syms : list str) (x : str) (i : Z) : option Z :=
   match syms with
